@@ -1,6 +1,6 @@
 \* Template: bin/check substitutes the @@..@@ fields (checks/c07.py CONFIGS). By hand, e.g.
 \*   sed -e 's/@@NC@@/3/;s/@@OPS@@/2/;s/@@BACKENDS@@/{"consul","etcd","memberlist"}/;s/@@LIMIT@@/10/;s/@@MAXERR@@/1/' \
-\*       -e 's/@@SECONDARIES@@/{"none"}/;s/@@DELETE@@/FALSE/;s/@@EMIT@@/FALSE/;s/@@INV@@/Serial SeenChain NoLostNoPhantom SawCurrent/' MC.cfg > MC_x.cfg
+\*       -e 's/@@SECONDARIES@@/{"none"}/;s/@@DELETE@@/FALSE/;s/@@SAME@@/FALSE/;s/@@NW@@/0/;s/@@EMIT@@/FALSE/;s/@@INV@@/Serial SeenChain NoLostNoPhantom SawCurrent/' MC.cfg > MC_x.cfg
 CONSTANTS
   NC = @@NC@@
   OpsPer = @@OPS@@
@@ -9,11 +9,13 @@ CONSTANTS
   MaxErr = @@MAXERR@@
   Secondaries = @@SECONDARIES@@
   WithDelete = @@DELETE@@
+  WithSame = @@SAME@@
+  NW = @@NW@@
   Emit = @@EMIT@@
 INIT Init
 NEXT Next
 VIEW view
-INVARIANTS TypeOK AtMostOncePerCall MirrorSound @@INV@@
+INVARIANTS TypeOK AtMostOncePerCall MirrorSound WatchSound @@INV@@
 PROPERTY FailureIsNoop
 ACTION_CONSTRAINT EmitHist
 CHECK_DEADLOCK FALSE
